@@ -16,6 +16,12 @@ path and its extensions and copy the facts of the right-hand side path
 (`lhs = rhs` renames).  Calls kill paths rooted at variables passed by address
 and at globals the callee assigns directly.
 
+Integer values of the input (W.zero_fields, functions derived to return them, parameters that receive them unchecked) are
+tracked with the same nullness lattice (N = may be 0, NN = tested non-zero): `note_div` classifies the divisor of every
+integer division, `mustdiv` summarises parameters a function divides by, tests of evaluator results (W.evaluators) are
+remembered in St.pc as 'value-of(<node path>)' outcomes, and boolean flags that are only set for validated kinds
+(derive_flag_kinds) refine the owner's kind where they are tested.
+
 Nothing here looks at source text, line numbers or identifier spelling of
 locals: paths are rooted at declaration ids; keys render roots by their type.
 """
@@ -954,6 +960,24 @@ class Engine:
         if v.objk is not None and v.path is None and p.endswith('[]'):
             S.vs[p[:-2] + '->kind'] = ('in', frozenset([v.objk]))      # `*p = *new_x(K)`: whole-struct copy of a fresh object of kind K
 
+    def alias_store(self, S, p):
+        """`R->f = v` was stored while another pointer variable Q is a plain copy of R (neither assigned since): Q->f is the same location"""
+        i = p.find('->')
+        if i <= 0:
+            return
+        R, rest = p[:i], p[i:]
+        if any(c in R for c in '.[#'):
+            return
+        peers = [q for q, o in S.ali.items() if o == R and q != R and not any(c in q for c in '-.[#')]
+        o = S.ali.get(R)
+        if o is not None and o != R and not any(c in o for c in '-.[#'):
+            peers.append(o)
+        for q in peers:
+            S.kill(q + rest)
+            for d in (S.nul, S.vs):
+                for k, f in [(k, f) for k, f in d.items() if _ext(p, k)]:
+                    d[q + rest + k[len(p):]] = f
+
     def note_store(self, S, lhs, p):
         e = lhs
         while e.kind in TRANSPARENT:
@@ -974,6 +998,7 @@ class Engine:
                     if p is not None:
                         self.assign_path(s2, p, v, e)
                         self.note_store(s2, a, p)
+                        self.alias_store(s2, p)
                     self.note_fstore(s2, a, v, e, p)
                     out.append((s2, Val(path=p, nul=v.nul, src=v.src, const=v.const, ename=v.ename, vs=v.vs)))
             return out
@@ -1591,6 +1616,8 @@ class Engine:
         return T, F
 
     def compare0(self, S, va, vb, na, nb):
+        if va.path is not None and vb.path is not None and is_ptr_type(na.type) and (S.ali.get(va.path) == vb.path or S.ali.get(vb.path) == va.path):
+            return [S], []      # one is a plain copy of the other and neither was assigned since: equal
         # constant on the left: swap
         if (va.const is not None or va.nul == 'NULL') and va.path is None and not (vb.const is not None and vb.path is None):
             va, vb, na, nb = vb, va, nb, na
@@ -2025,6 +2052,12 @@ class Engine:
                     nul[(roots[r], q[len(r):])] = v[0]
             for q, f in S.vs.items():
                 r = _root(q)
+                if r not in roots and q in S.ali and f[0] == 'in' and all(isinstance(x, str) for x in f[1]):
+                    # a local that is a plain copy of something reachable from a parameter (`TypeKind k = ty->kind;`), not assigned since
+                    q = S.ali[q]
+                    r = _root(q)
+                    if (roots.get(r), q[len(r):]) in vs or q in S.vs:
+                        continue
                 if r in roots and f[0] == 'in' and all(isinstance(x, (str, int)) for x in f[1]) and '#' not in q:
                     vs[(roots[r], q[len(r):])] = f
             return (frozenset(nul.items()), frozenset(vs.items()))
